@@ -415,6 +415,21 @@ func (A *audit) indexSafe(x, idx ssa.Value, at ssa.Instruction) (bool, string) {
 		}
 		return false, fmt.Sprintf("index ranges over %s but nothing relates its length to len(%s)", ot, xt)
 	}
+	// the index variable of a loop bounded by a constant (range over an array)
+	for _, l := range A.loopsOf(at.Parent()) {
+		if l.constBound < 0 || l.idx == nil || l.idx != idx || !(l.kind == "slice-range" || l.kind == "counted") {
+			continue
+		}
+		if !(l.blocks[at.Block()] && at.Block() != l.header && l.body.Dominates(at.Block())) {
+			continue
+		}
+		if arr, ok := deref(x.Type()).Underlying().(*types.Array); ok && arr.Len() >= l.constBound {
+			return true, fmt.Sprintf("index is the loop variable bounded by %d over an array of %d elements", l.constBound, arr.Len())
+		}
+		if A.minLenCtx(at.Parent(), xt, fs, l.constBound, 0) {
+			return true, fmt.Sprintf("index is the loop variable bounded by %d and len(%s) >= %d", l.constBound, xt, l.constBound)
+		}
+	}
 	it := P.terms.of(idx)
 	// x[len(x)-1] under len(x) != 0
 	if it.Op == "binop" && it.S == "-" && it.Args[0].eq(tLen(xt)) {
